@@ -3,7 +3,7 @@
 cd /verif; SCR=$(mktemp -d /tmp/harmless_XXXXXX); trap "rm -rf $SCR" EXIT
 run() { # dir N props
   echo "### harmless/${1}_$2.diff -> $3"
-  PYVC_REPLAY_DIR=$SCR timeout 5400 tools/try_mutant.py $3 --patch /verif/harmless/${1}_$2.diff 2>&1 | grep -E "^==|VIOLATION|UNDECIDED|CHECKER" | cut -c1-260
+  PYVC_REPLAY_DIR=$SCR timeout 5400 tools/try_mutant.py $3 --patch /verif/harmless/${1}_$2.diff 2>&1 | grep -E "^==|VIOLATION|UNDECIDED|CHECKER|error:|CalledProcessError" | cut -c1-260
 }
 run h1 1 C11,C13
 run h1 2 C11,C13,C01,C02
